@@ -4,12 +4,14 @@ from checks.common import Check
 
 def configs(tier):
     q = [
-        ('one element: 2 children, 2 attributes (plain/xmlns/prefixed/keyword), text', dict(family='root_level', fam_kw=dict(docs=1, slots=2, attrs=2, text=True, leaf_form=False, root_form=False, names=['b', 'ns:b', 'type'], anames=['a', 'xmlns:h', 'h:c', 'type']))),
+        ('one element: 2 children, 2 attributes (plain/xmlns/prefixed/keyword), text', dict(family='root_level', fam_kw=dict(docs=1, slots=1, attrs=2, text=True, leaf_form=False, root_form=False, names=['b', 'ns:c'], anames=['a', 'xmlns:h', 'type']))),
         ('nested: 2occ x 1 child x 1 attribute, text', dict(family='one_level', fam_kw=dict(occ=2, slots=1, attrs=1, text=True, leaf_form=False, p_form=False, names=['b', 'text'], anames=['a', 'text']))),
         ('two documents: optional attributes and children', dict(family='root_level', fam_kw=dict(docs=2, slots=1, attrs=1, text=True, leaf_form=False, root_form=False, names=['b', 'Foo'], anames=['a', 'b']))),
     ]
     if tier == 'quick': return q
     return q + [
+        ('one element: 2 children, 2 attributes over 3 names, text', dict(family='root_level', fam_kw=dict(docs=1, slots=2, attrs=2, text=True, leaf_form=False, root_form=False, names=['b', 'ns:c'], anames=['a', 'xmlns:h', 'type']))),
+        ('one element: 2 children (same local name with/without prefix), 2 attributes over 4 names', dict(family='root_level', fam_kw=dict(docs=1, slots=2, attrs=2, text=True, leaf_form=False, root_form=False, names=['b', 'ns:b', 'type'], anames=['a', 'xmlns:h', 'h:c', 'type']))),
         ('one element: 3 children, 2 attributes', dict(family='root_level', fam_kw=dict(docs=1, slots=3, attrs=2, text=True, leaf_form=False, root_form=False, names=['b', 'ns:c', 'self'], anames=['a', 'xmlns:h', 'h:c']))),
         ('nested: 2occ x 2 children x 2 attributes', dict(family='one_level', fam_kw=dict(occ=2, slots=2, attrs=2, text=True, leaf_form=False, p_form=False, names=['b', 'text'], anames=['a', 'text', 'b']))),
     ]
